@@ -32,6 +32,20 @@ type P struct{}
 
 func (P) ID() string { return "C04" }
 
+// Facts: the names of the metadata buckets/keys that make up the persisted
+// chain state, the bucket versions, the block status bits and the flush modes.
+func (P) Facts() []core.Fact {
+	uv, jv := blockchain.VerifC04Versions()
+	return []core.Fact{
+		{Name: "names", Value: blockchain.VerifC04Names()},
+		{Name: "utxoSetVersion", Value: uv},
+		{Name: "spendJournalVersion", Value: jv},
+		{Name: "statusBits", Value: blockchain.VerifC04StatusBits()},
+		{Name: "flushModes", Value: []int64{int64(blockchain.FlushRequired), int64(blockchain.FlushPeriodic), int64(blockchain.FlushIfNeeded)}},
+		{Name: "coinbaseMaturityUsed", Value: int(newParams().CoinbaseMaturity)},
+	}
+}
+
 // ---------------------------------------------------------------------------
 // Abstract workload on the line.
 //
